@@ -136,6 +136,12 @@ SCRIPTS = {
     "ValidateArgsFailed": ("invalid parameter list of a nested function in a call", "fn f() {\n    fn g(1) {\n    }\n}\nf()\n", _traced),
     "BindListItemFailed": ("error binding a nested list pattern in a call", "fn f() {\n    [[a]] := [1]\n}\nf()\n", _traced),
     "BindObjectPairFailed": ("error binding a nested object pattern in a call", "fn f() {\n    {\"k\": [a]} := {\"k\": 1}\n}\nf()\n", _traced),
+    "EvalObjectIndexFailed": ("error in the index expression of an object index in a call", "fn f() {\n    o := {\"a\": 1}\n    return o[zz]\n}\nf()\n", _traced),
+    "EvalListIndexFailed": ("error in the index expression of a list index in a call", "fn f() {\n    xs := [1]\n    return xs[zz]\n}\nf()\n", _traced),
+    "EvalStringIndexFailed": ("error in the index expression of a string index in a call", "fn f() {\n    s := \"a\"\n    return s[zz]\n}\nf()\n", _traced),
+    "BinOpAssignListIndexFailed": ("failing op-assignment on a list element in a call", "fn f() {\n    xs := [1]\n    xs[0] += \"a\"\n}\nf()\n", _traced),
+    "BinOpAssignObjectIndexFailed": ("failing op-assignment on an object element in a call", "fn f() {\n    o := {\"a\": 1}\n    o[\"a\"] += \"a\"\n}\nf()\n", _traced),
+    "BinOpAssignPropFailed": ("failing op-assignment on a property in a call", "fn f() {\n    o := {\"a\": 1}\n    o.a += \"a\"\n}\nf()\n", _traced),
     "AssertArgsFailed": ("wrong argument count for print in a call", "fn f() {\n    print(1, 2)\n}\nf()\n", _traced),
 }
 
